@@ -261,8 +261,9 @@ impl State {
         let recv_end_stream = self.is_recv_end_stream();
         match self.inner {
             // If the stream is already in a `Closed` state, do nothing,
-            // provided that there are no frames still in the send queue.
-            Closed(..) if !queued => {}
+            // provided that there are no frames still in the send queue and
+            // that we are not still waiting to send our own reset.
+            Closed(ref cause) if !queued && !matches!(cause, Cause::ScheduledLibraryReset(..)) => {}
             // A notionally `Closed` stream may still have queued frames in
             // the following cases:
             //
@@ -298,6 +299,10 @@ impl State {
     /// Handle a connection-level error.
     pub fn handle_error(&mut self, err: &proto::Error) {
         match self.inner {
+            // A scheduled reset will never be sent now, don't wait for it.
+            Closed(Cause::ScheduledLibraryReset(..)) => {
+                self.inner = Closed(Cause::Error(err.clone()));
+            }
             Closed(..) => {}
             _ => {
                 tracing::trace!("handle_error; err={:?}", err);
@@ -308,7 +313,7 @@ impl State {
 
     pub fn recv_eof(&mut self) {
         match self.inner {
-            Closed(..) => {}
+            Closed(ref cause) if !matches!(cause, Cause::ScheduledLibraryReset(..)) => {}
             ref state => {
                 tracing::trace!("recv_eof; state={:?}", state);
                 self.inner = Closed(Cause::Error(
